@@ -79,6 +79,17 @@ def run(tier, seed, replay=None):
         ("a = [[1], 2]; p, q = a; p[0] = 7; a[0]", "[i:7]", "a list element unpacked into a name is still a reference to that list"),
         ("func f() { return [1, 2] }; a = f(); p, q = a; a[0] = 7; p", "i:1", "unpacking the list a function returned"),
     ]
+    # three-index slices: 0 <= lo <= hi <= max <= cap(a) as in Go, the capacity of the source counts, not its length
+    detached += [
+        ("a = [1, 2, 3, 4, 5]; b = a[0:2]; c = b[0:1:4]; c += [9, 8, 7]; [a, c]", "[[i:1,i:9,i:8,i:7,i:5],[i:1,i:9,i:8,i:7]]",
+         "a[lo:hi:max] with len < max <= cap is allowed and appends within max write the shared storage"),
+        ("a = [1, 2, 3, 4, 5]; b = a[0:2]; c = b[0:1:5]; c += [9, 8, 7, 6]; [a, c]", "[[i:1,i:9,i:8,i:7,i:6],[i:1,i:9,i:8,i:7,i:6]]", "max equal to the capacity of the source"),
+        ("a = [1, 2, 3, 4, 5]; b = a[0:2]; (b[0:1:6]) ?? \"E\"", "s:45", "max beyond the capacity is an error"),
+        ("a = [1, 2, 3, 4, 5]; b = a[1:3]; c = b[1:2:4]; c += [9, 8]; [a, c]", "[[i:1,i:2,i:3,i:9,i:8],[i:3,i:9,i:8]]", "the capacity counts from the view's start"),
+        ("a = [1, 2, 3, 4, 5]; b = a[0:2:3]; c = b[0:1:3]; c += [9, 8]; [a, c]", "[[i:1,i:9,i:8,i:4,i:5],[i:1,i:9,i:8]]", "a three-index slice of a three-index slice up to its capacity"),
+        ("a = [1, 2, 3, 4, 5]; b = a[0:2:3]; (b[0:1:4]) ?? \"E\"", "s:45", "a three-index slice limits the capacity of what is sliced from it"),
+        ("a = [1, 2, 3, 4, 5]; b = a[0:2]; c = b[0:1:4]; c += [9, 8, 7, 6]; [a, c]", "[[i:1,i:2,i:3,i:4,i:5],[i:1,i:9,i:8,i:7,i:6]]", "an append beyond max reallocates and leaves the source alone"),
+    ]
     expectations = [{"src": src, "field": "result", "want": want, "why": why} for src, want, why in detached]
     expectations += [{"src": p["src"], "field": "trace", "want": p["want"],
                      "why": "the observations of a container history equal those of the same operations on Go values"} for p in data["untyped"]]
